@@ -233,7 +233,7 @@ theorem handled_stats {P : Int → Bool} {e : List Mark} (h : Marks P true e) (t
 
 /-- everything the statistics are made of -/
 def State.stat (s : State) :=
-  (s.hist, s.traffic, s.counts, s.inTraffic, s.trafficSeq, s.now, s.tTiming, s.tTraffic, s.tInfo)
+  (s.hist, s.traffic, s.counts, s.inTraffic, s.trafficSeq, s.now, s.tTiming, s.tTraffic, s.tInfo, s.buf)
 
 /-- `s'` is reached from `s` by manager activity that handled exactly the frames `e` (newest first; all with the
     statistics flag of `s`, all of a type satisfying `P`) and made no report: both counters are the old ones with the
@@ -249,13 +249,14 @@ structure AccE (cfg : Cfg) (P : Int → Bool) (s s' : State) (e : List Mark) : P
   tT : s'.tTiming = s.tTiming
   tR : s'.tTraffic = s.tTraffic
   tI : s'.tInfo = s.tInfo
+  buf : s'.buf = s.buf
 
 def Acc (cfg : Cfg) (P : Int → Bool) (s s' : State) : Prop := ∃ e, AccE cfg P s s' e
 
 theorem accE_of_stat {cfg : Cfg} {P : Int → Bool} {s s' : State} (h : s'.stat = s.stat) : AccE cfg P s s' [] := by
   simp only [State.stat, Prod.mk.injEq] at h
-  obtain ⟨h1, h2, h3, h4, h5, h6, h7, h8, h9⟩ := h
-  exact ⟨by simpa using h1, Marks.nil _ _, h2, by rw [h3]; simp [tallyOn], h4, h5, h6, h7, h8, h9⟩
+  obtain ⟨h1, h2, h3, h4, h5, h6, h7, h8, h9, h10⟩ := h
+  exact ⟨by simpa using h1, Marks.nil _ _, h2, by rw [h3]; simp [tallyOn], h4, h5, h6, h7, h8, h9, h10⟩
 
 theorem acc_of_stat {cfg : Cfg} {P : Int → Bool} {s s' : State} (h : s'.stat = s.stat) : Acc cfg P s s' :=
   ⟨[], accE_of_stat h⟩
@@ -266,7 +267,7 @@ theorem AccE.trans {cfg : Cfg} {P : Int → Bool} {s s' s'' : State} {e1 e2 : Li
     (h1 : AccE cfg P s s' e1) (h2 : AccE cfg P s' s'' e2) : AccE cfg P s s'' (e2 ++ e1) := by
   refine ⟨by rw [h2.hist, h1.hist, List.append_assoc], Marks.append (by rw [← h1.inT]; exact h2.marks) h1.marks,
     by rw [h2.traffic, h1.traffic, tallyOn_append], ?_, h2.inT.trans h1.inT, h2.seq.trans h1.seq, h2.now.trans h1.now,
-    h2.tT.trans h1.tT, h2.tR.trans h1.tR, h2.tI.trans h1.tI⟩
+    h2.tT.trans h1.tT, h2.tR.trans h1.tR, h2.tI.trans h1.tI, h2.buf.trans h1.buf⟩
   rw [h2.counts, h1.counts]
   split
   · rw [tallyOn_append]
@@ -278,7 +279,7 @@ theorem Acc.trans {cfg : Cfg} {P : Int → Bool} {s s' s'' : State} (h1 : Acc cf
 
 theorem AccE.mono {cfg : Cfg} {P Q : Int → Bool} {s s' : State} {e : List Mark} (h : AccE cfg P s s' e)
     (hpq : ∀ t, P t = true → Q t = true) : AccE cfg Q s s' e :=
-  ⟨h.hist, h.marks.mono hpq, h.traffic, h.counts, h.inT, h.seq, h.now, h.tT, h.tR, h.tI⟩
+  ⟨h.hist, h.marks.mono hpq, h.traffic, h.counts, h.inT, h.seq, h.now, h.tT, h.tR, h.tI, h.buf⟩
 
 theorem Acc.mono {cfg : Cfg} {P Q : Int → Bool} {s s' : State} (h : Acc cfg P s s')
     (hpq : ∀ t, P t = true → Q t = true) : Acc cfg Q s s' := by
@@ -386,10 +387,10 @@ theorem countMsg_accE (cfg : Cfg) (s : State) (t : Int) :
   unfold countMsg
   by_cases hb : s.inTraffic = true
   · simp only [hb, if_true]
-    exact ⟨rfl, by rw [hb]; exact Marks.single _ _ t rfl, rfl, by simp [tallyOn], by simp [hb], rfl, rfl, rfl, rfl, rfl⟩
+    exact ⟨rfl, by rw [hb]; exact Marks.single _ _ t rfl, rfl, by simp [tallyOn], by simp [hb], rfl, rfl, rfl, rfl, rfl, rfl⟩
   · have hb' : s.inTraffic = false := by simpa using hb
     simp only [hb', Bool.false_eq_true, if_false]
-    exact ⟨rfl, by rw [hb']; exact Marks.single _ _ t rfl, rfl, by split <;> rfl, by simp [hb'], rfl, rfl, rfl, rfl, rfl⟩
+    exact ⟨rfl, by rw [hb']; exact Marks.single _ _ t rfl, rfl, by split <;> rfl, by simp [hb'], rfl, rfl, rfl, rfl, rfl, rfl⟩
 
 /-- **`forward_message` handles its frame exactly once, and counts everything nested in it**: the marks it leaves are
 its own frame's (unless it is out of fuel or the manager has crashed) below those of the CLIENT_CLOSED / FAILED_MESSAGE /
@@ -402,7 +403,7 @@ theorem forward_accE (cfg : Cfg) : ∀ (n : Nat) (s : State) (g : Frame),
   | n + 1, s, g => by
     have ih : AccOK cfg (forward cfg n) := fun s' g' hg' => by
       obtain ⟨e', hm, ha⟩ := forward_accE cfg n s' g'
-      refine ⟨_, ⟨ha.hist, ?_, ha.traffic, ha.counts, ha.inT, ha.seq, ha.now, ha.tT, ha.tR, ha.tI⟩⟩
+      refine ⟨_, ⟨ha.hist, ?_, ha.traffic, ha.counts, ha.inT, ha.seq, ha.now, ha.tT, ha.tR, ha.tI, ha.buf⟩⟩
       refine Marks.append hm ?_
       split
       · exact Marks.nil _ _
@@ -425,7 +426,7 @@ theorem forward_accE (cfg : Cfg) : ∀ (n : Nat) (s : State) (g : Frame),
 
 theorem forward_accOK (cfg : Cfg) (n : Nat) : AccOK cfg (forward cfg n) := fun s g hg => by
   obtain ⟨e', hm, ha⟩ := forward_accE cfg n s g
-  refine ⟨_, ⟨ha.hist, ?_, ha.traffic, ha.counts, ha.inT, ha.seq, ha.now, ha.tT, ha.tR, ha.tI⟩⟩
+  refine ⟨_, ⟨ha.hist, ?_, ha.traffic, ha.counts, ha.inT, ha.seq, ha.now, ha.tT, ha.tR, ha.tI, ha.buf⟩⟩
   refine Marks.append hm ?_
   split
   · exact Marks.nil _ _
@@ -472,7 +473,7 @@ theorem fwdTop_any (cfg : Cfg) (s : State) (g : Frame) : AnyAcc cfg s (fwdTop cf
 
 theorem fwdTop_macc (cfg : Cfg) (s : State) (g : Frame) (hg : mgrType cfg g.mtype = true) : MAcc cfg s (fwdTop cfg s g) := by
   obtain ⟨e', hm, ha⟩ := fwdTop_accE cfg s g
-  refine ⟨_, ⟨ha.hist, ?_, ha.traffic, ha.counts, ha.inT, ha.seq, ha.now, ha.tT, ha.tR, ha.tI⟩⟩
+  refine ⟨_, ⟨ha.hist, ?_, ha.traffic, ha.counts, ha.inT, ha.seq, ha.now, ha.tT, ha.tR, ha.tI, ha.buf⟩⟩
   refine Marks.append (hm.mono (nested_mgr cfg)) ?_
   split
   · exact Marks.nil _ _
@@ -680,35 +681,35 @@ theorem readOne_eq (s : State) (r : Read) (hc : s.crashed = none) (m : Module) (
     · have h2' : r.hdrOk = false := by simpa using h2
       simp [h2']; rfl
 
-theorem readOne_any (s : State) (r : Read) : AnyAcc cfg s (readOne cfg s r) := by
+/-- the state in which the frame just read is handled: the read marker is logged, the payload is in the buffer -/
+def afterRead (cfg : Cfg) (s : State) (r : Read) : State := { (s.emit (.rd r.uid)) with buf := bufAfter cfg s.buf r }
+
+/-- `readOne` either does nothing (crashed manager, connection no longer in the table) or handles the frame in
+    `afterRead` -/
+theorem readOne_cases (s : State) (r : Read) :
+    readOne cfg s r = s ∨
+    (s.crashed = none ∧ (∃ m, s.find r.uid = some m) ∧
+      readOne cfg s r =
+        if readBroken cfg r then
+          logAt cfg (fwdTop cfg) (if r.hdrErr || (!(!r.hdrOk || r.h.nbytes < 0 || r.h.nbytes > cfg.bufMax) && r.payErr) then 40 else 30)
+            (removeModule cfg (fwdTop cfg) (afterRead cfg s r) r.uid)
+        else processMessage cfg (afterRead cfg s r) r.uid r.h) := by
   cases hc : s.crashed with
-  | some w => unfold readOne; simp [hc]; exact Acc.refl _ _ s
+  | some w => left; unfold readOne; simp [hc]
   | none =>
     cases hm : s.find r.uid with
-    | none => unfold readOne; simp [hc, hm]; exact Acc.refl _ _ s
-    | some m =>
-      rw [readOne_eq cfg s r hc m hm]
-      have h0 : AnyAcc cfg s { (s.emit (.rd r.uid)) with buf := bufAfter cfg s.buf r } := acc_of_stat rfl
-      split
-      · exact h0.trans (MAcc.any ((removeModule_macc cfg _ _).trans (logAt_macc cfg _ _)))
-      · exact h0.trans (process_any cfg _ _ _)
+    | none => left; unfold readOne; simp [hc, hm]
+    | some m => right; exact ⟨rfl, ⟨m, rfl⟩, readOne_eq cfg s r hc m hm⟩
 
-theorem readAll_any : ∀ (rs : List Read) (s : State), AnyAcc cfg s (readAll cfg rs s)
-  | [], s => Acc.refl _ _ s
-  | r :: rest, s => by unfold readAll; exact (readOne_any cfg s r).trans (readAll_any rest _)
+theorem afterRead_any (s : State) (r : Read) : AnyAcc cfg (afterRead cfg s r) (readOne cfg s r) ∨ readOne cfg s r = s := by
+  rcases readOne_cases cfg s r with h | ⟨_, _, h⟩
+  · exact Or.inr h
+  · left; rw [h]; split
+    · exact MAcc.any ((removeModule_macc cfg _ _).trans (logAt_macc cfg _ _))
+    · exact process_any cfg _ _ _
 
 theorem accept_macc (s : State) : MAcc cfg s (acceptStep cfg s) := by
   unfold acceptStep; exact (logAt_macc cfg 20 s).trans (acc_of_stat rfl)
-
-theorem io_any (s : State) (a : Bool) (w : List Nat) (rs : List Read) : AnyAcc cfg s (ioStep cfg s a w rs) := by
-  unfold ioStep
-  split
-  · dsimp only
-    refine Acc.trans ?_ (readAll_any cfg rs _)
-    split
-    · exact (accept_macc cfg s).any.trans (acc_of_stat rfl)
-    · exact acc_of_stat rfl
-  · exact Acc.refl _ _ s
 
 theorem infoAll_macc : ∀ (ms : List Module) (s : State), MAcc cfg s (infoAll cfg ms s)
   | [], s => Acc.refl _ _ s
@@ -782,6 +783,26 @@ theorem sinceTick_other (tick m : Mark) (h : List Mark) (hne : m ≠ tick) :
     sinceTick tick (m :: h) = m :: sinceTick tick h := by
   simp [sinceTick, hne]
 
+theorem readOne_statInv {cfg : Cfg} {s : State} (h : StatInv cfg s) (r : Read) : StatInv cfg (readOne cfg s r) := by
+  rcases afterRead_any cfg s r with h1 | h1
+  · exact statInv_acc (statInv_same (s' := afterRead cfg s r) h rfl rfl rfl rfl) h1
+  · rw [h1]; exact h
+
+theorem readAll_statInv {cfg : Cfg} : ∀ (rs : List Read) {s : State}, StatInv cfg s → StatInv cfg (readAll cfg rs s)
+  | [], _, h => h
+  | r :: rest, _, h => by unfold readAll; exact readAll_statInv rest (readOne_statInv h r)
+
+theorem io_statInv {cfg : Cfg} {s : State} (h : StatInv cfg s) (a : Bool) (w : List Nat) (rs : List Read) :
+    StatInv cfg (ioStep cfg s a w rs) := by
+  unfold ioStep
+  split
+  · dsimp only
+    apply readAll_statInv
+    split
+    · exact statInv_same (statInv_acc h (accept_macc cfg s)) rfl rfl rfl rfl
+    · exact statInv_same h rfl rfl rfl rfl
+  · exact h
+
 /-- TIMING_MESSAGE: the table is emptied, the report is handled inside the statistics context (nothing is counted),
     the tick is marked -/
 theorem sendTiming_inv {cfg : Cfg} {s : State} (h : StatInv cfg s) : StatInv cfg (sendTiming cfg s) := by
@@ -849,7 +870,7 @@ theorem step_inv {cfg : Cfg} {s : State} (h : StatInv cfg s) (r : Round) : StatI
   · exact h
   · dsimp only
     have h0 : StatInv cfg (envStep s r) := by unfold envStep; exact statInv_same h rfl rfl rfl rfl
-    exact ticks_inv (statInv_acc h0 (io_any cfg _ _ _ _))
+    exact ticks_inv (io_statInv h0 _ _ _)
 
 theorem init_inv (cfg : Cfg) : StatInv cfg (init cfg) := by
   unfold init
@@ -874,6 +895,25 @@ theorem Grows.trans {a b c : State} (h1 : Grows a b) (h2 : Grows b c) : Grows a 
 theorem grows_of_acc {cfg : Cfg} {P : Int → Bool} {s s' : State} (h : Acc cfg P s s') : Grows s s' := by
   obtain ⟨e, h⟩ := h; exact ⟨e, h.hist⟩
 theorem grows_of_eq {s s' : State} (h : s'.hist = s.hist) : Grows s s' := ⟨[], h⟩
+
+theorem readOne_grows (cfg : Cfg) (s : State) (r : Read) : Grows s (readOne cfg s r) := by
+  rcases afterRead_any cfg s r with h1 | h1
+  · exact (grows_of_eq (s := s) (s' := afterRead cfg s r) rfl).trans (grows_of_acc h1)
+  · rw [h1]; exact Grows.refl s
+
+theorem readAll_grows (cfg : Cfg) : ∀ (rs : List Read) (s : State), Grows s (readAll cfg rs s)
+  | [], s => Grows.refl s
+  | r :: rest, s => by unfold readAll; exact (readOne_grows cfg s r).trans (readAll_grows cfg rest _)
+
+theorem io_grows (cfg : Cfg) (s : State) (a : Bool) (w : List Nat) (rs : List Read) : Grows s (ioStep cfg s a w rs) := by
+  unfold ioStep
+  split
+  · dsimp only
+    refine Grows.trans ?_ (readAll_grows cfg rs _)
+    split
+    · exact (grows_of_acc (accept_macc cfg s)).trans (grows_of_eq rfl)
+    · exact grows_of_eq rfl
+  · exact Grows.refl s
 
 theorem ticks_grows (cfg : Cfg) (s : State) : Grows s (ticks cfg s) := by
   unfold ticks
@@ -910,6 +950,6 @@ theorem hist_suffix_step (cfg : Cfg) (s : State) (r : Round) : ∃ e, (step cfg 
   · exact ⟨[], rfl⟩
   · dsimp only
     have h0 : Grows s (envStep s r) := grows_of_eq rfl
-    exact (h0.trans (grows_of_acc (io_any cfg _ _ _ _))).trans (ticks_grows cfg _)
+    exact (h0.trans (io_grows cfg _ _ _ _)).trans (ticks_grows cfg _)
 
 end Pyrtma.Mgr
